@@ -1229,6 +1229,9 @@ impl InstrFormat for TimelineFormat06 {
     }
 
     fn write_instr(&self, f: &mut BinWriter, emitter: &dyn Emitter, instr: &RawInstr) -> WriteResult {
+        if instr.param_mask != 0 {
+            return Err(emitter.as_sized().emit(error!("instructions have no parameter mask in this format (mask {:#x} would be lost)", instr.param_mask)));
+        }
         if (instr.time, instr.extra_arg.unwrap_or(0)) == (-1, 4) {
             return Err(emitter.as_sized().emit(error!(
                 "a timeline instruction with time -1 and arg0 4 cannot be told apart from the end-of-script marker",
@@ -1275,6 +1278,9 @@ impl InstrFormat for TimelineFormat08 {
     }
 
     fn write_instr(&self, f: &mut BinWriter, emitter: &dyn Emitter, instr: &RawInstr) -> WriteResult {
+        if instr.param_mask != 0 {
+            return Err(emitter.as_sized().emit(error!("instructions have no parameter mask in this format (mask {:#x} would be lost)", instr.param_mask)));
+        }
         if instr.extra_arg.unwrap_or(0) != 0 {
             return Err(emitter.as_sized().emit(error!("timeline instructions have no arg0 in this game")));
         }
